@@ -445,6 +445,20 @@ func createHandler(router *server.Router) http.HandlerFunc {
 	corsOrigin := os.Getenv("GLYPH_CORS_ORIGIN")
 
 	return func(w http.ResponseWriter, r *http.Request) {
+		// A panic below (in a handler, a middleware or the engines) must not
+		// reach net/http, which would log it and close the connection without
+		// a response. Report it like any other handler failure instead.
+		defer func() {
+			if rec := recover(); rec != nil {
+				printError(fmt.Errorf("panic serving %s %s: %v", r.Method, r.URL.Path, rec))
+				w.Header().Set("Content-Type", "application/json")
+				w.WriteHeader(http.StatusInternalServerError)
+				json.NewEncoder(w).Encode(map[string]string{
+					"error": "Internal server error",
+				})
+			}
+		}()
+
 		// Apply CORS headers when configured
 		if corsOrigin != "" {
 			w.Header().Set("Access-Control-Allow-Origin", corsOrigin)
